@@ -521,6 +521,88 @@ Example json_params_example :
   J.json_params ps doc = [("x", "v")] /\ map (fun a => J.jlookup doc (snd a)) ps = [Some "v"; None; None; None].
 Proof. vm_compute. split; reflexivity. Qed.
 
+(* ============================================================================================================== *)
+(* round 4: a metric request as a whole -- the chain of per-entry stages (filters, json / logfmt, label_format, line_format,
+   unwrap, drop, by/without, comparison, limit) composed with the aggregation stage behind it                        *)
+From Qryn Require proofs.InternalEngineMetricProofs.
+Module MP := InternalEngineMetricProofs.
+Section C09_METRIC_WHOLE.
+  Variable V : Type.
+  Variables (v0 v1 : V) (vadd vdiv : V -> V -> V) (vltb vleb veqb : V -> V -> bool) (vofZ : Z -> V).
+  Variable panic_kills : bool.
+  Variable fpf : lbls -> N.
+  Variable re_match : string -> string -> bool.
+  Variable pfloat : string -> option V.
+  Variable parse : N -> string -> option lbls.
+  Variable tmpl : N -> lbls -> option string.
+  Notation run_chain := (run_chain V v0 v1 vadd vdiv vltb vleb veqb vofZ panic_kills fpf re_match pfloat parse tmpl).
+  Notation sem_chain := (sem_chain V v0 v1 vadd vdiv vltb vleb veqb vofZ fpf re_match pfloat parse tmpl).
+
+  (* the upstream delivers data rows inside the window and ends with io.EOF entries only (what the ClickHouse getter sends
+     when the query succeeds), in ANY batching; ch is any chain of simple stages; the rows that reach the aggregator carry
+     one fingerprint per label set and back, at most 2000 of them (the stage's documented limit).  Then the WHOLE chain
+     ch ++ [aggregation] does not fail, sends data entries only, and what it sends is, as one list, a permutation of what
+     the reference semantics of the whole chain defines for the upstream rows: sem_agg over sem_chain ch.  No hypothesis
+     about the output of the stages in front is left except the series identity, which the stages establish by
+     re-fingerprinting with hash.go (distinct_labels_distinct_series) or inherit from ClickHouse. *)
+  Theorem metric_request_whole_result :
+    vltb v0 v0 = false -> vltb v0 v1 = true -> veqb v0 v0 = true -> veqb v1 v0 = false -> vltb v0 (vadd v0 v1) = true ->
+    (forall x, vltb v0 x = true -> vltb v0 (vadd x v1) = true) -> (forall x, vltb v0 x = true -> veqb x v0 = false) ->
+    forall k c dur ch rows t bs,
+    agg_covered k = true ->
+    forallb (simple_stage V) ch = true ->
+    Forall (data_row V) rows -> Forall (in_window V c dur) rows ->
+    Forall (fun e => e_err V e = EEof) t ->
+    List.concat bs = (rows ++ t)%list ->
+    W.one_fp_per_set V (data_of V (List.concat (run_chain c ch bs))) ->
+    (List.length (W.fps V (data_of V (List.concat (run_chain c ch bs)))) <= 2000)%nat ->
+    agg_specified k = true \/ c_to c - c_from c = stream_len c dur * dur ->
+    Forall (fun e => e_err V e = ENone) (List.concat (run_chain c (ch ++ [SAgg V k dur])%list bs)) /\
+    Permutation (map (erase V) (List.concat (run_chain c (ch ++ [SAgg V k dur])%list bs)))
+                (map (erase V) (sem_chain c (ch ++ [SAgg V k dur])%list (List.concat bs))).
+  Proof. exact (MP.metric_whole_stmt V v0 v1 vadd vdiv vltb vleb veqb vofZ panic_kills fpf re_match pfloat parse tmpl). Qed.
+
+  (* the aggregation's reference does not look at the fingerprints of the rows it is given: two row lists that the client
+     could not tell apart (erase) have the same aggregation *)
+  Theorem aggregation_reference_ignores_fingerprints : forall k c dur l1 l2,
+    map (erase V) l1 = map (erase V) l2 ->
+    sem_agg V v0 v1 vadd vdiv vltb vofZ fpf k c dur l1 = sem_agg V v0 v1 vadd vdiv vltb vofZ fpf k c dur l2.
+  Proof. exact (MP.sem_agg_congr V v0 v1 vadd vdiv vltb vofZ fpf). Qed.
+End C09_METRIC_WHOLE.
+Print Assumptions metric_request_whole_result.
+Print Assumptions aggregation_reference_ignores_fingerprints.
+
+(* count_over_time({..} |= "x" | drop pod [10s]) over a 20 s window: the series {a="b",pod="p"} (fingerprint 9) loses its pod
+   label and is re-fingerprinted, the line "y" is filtered out, the series {a="c",z="1"} (fingerprint 5) keeps its labels;
+   two batches, the io.EOF entry at the end *)
+Example metric_request_hypotheses_met :
+  let mk := fun ts fp m s => {| e_ts := ts; e_fp := fp; e_lbl := Some m; e_msg := s; e_val := 0; e_err := ENone |} in
+  let eof := {| e_ts := 0; e_fp := 0%N; e_lbl := None; e_msg := EmptyString; e_val := 0; e_err := EEof |} in
+  let c := {| c_from := 0; c_to := 20; c_limit := 0 |} in
+  let rows := [mk 1 9%N [("a", "b"); ("pod", "p")] "x1"; mk 12 5%N [("a", "c"); ("z", "1")] "x2"; mk 2 9%N [("a", "b"); ("pod", "p")] "y";
+               mk 3 9%N [("a", "b"); ("pod", "p")] "xx"] in
+  let bs := [[mk 1 9%N [("a", "b"); ("pod", "p")] "x1"; mk 12 5%N [("a", "c"); ("z", "1")] "x2"];
+             [mk 2 9%N [("a", "b"); ("pod", "p")] "y"; mk 3 9%N [("a", "b"); ("pod", "p")] "xx"; eof]] in
+  let fpf := fun m : lbls => N.of_nat (List.length m) in
+  let ch := [SLineFilter Z LfContains "x"; SDrop Z ["pod"] [""]] in
+  let run := run_chain Z 0 1 Z.add Z.div Z.ltb Z.leb Z.eqb (fun z => z) false fpf (fun _ _ => false) (fun _ => None) (fun _ _ => None) (fun _ _ => None) c in
+  forallb (simple_stage Z) ch = true /\ Forall (data_row Z) rows /\ Forall (in_window Z c 10) rows /\ List.concat bs = (rows ++ [eof])%list /\
+  W.one_fp_per_set Z (data_of Z (List.concat (run ch bs))) /\ (List.length (W.fps Z (data_of Z (List.concat (run ch bs)))) <= 2000)%nat /\
+  map (erase Z) (List.concat (run (ch ++ [SAgg Z (KLra LCount) 10])%list bs))
+  = [(0, Some [("a", "b")], EmptyString, 2, ENone); (10, Some [("a", "c"); ("z", "1")], EmptyString, 1, ENone)] /\
+  map (erase Z) (sem_chain Z 0 1 Z.add Z.div Z.ltb Z.leb Z.eqb (fun z => z) fpf (fun _ _ => false) (fun _ => None) (fun _ _ => None) (fun _ _ => None) c
+                   (ch ++ [SAgg Z (KLra LCount) 10])%list (List.concat bs))
+  = [(0, Some [("a", "b")], EmptyString, 2, ENone); (10, Some [("a", "c"); ("z", "1")], EmptyString, 1, ENone)].
+Proof.
+  cbv zeta. split; [reflexivity|]. split; [repeat constructor; eexists; reflexivity|]. split.
+  { repeat (constructor; [unfold in_window, stream_len; cbn; lia|]). constructor. }
+  split; [reflexivity|]. split.
+  { intros a b Ha Hb. vm_compute in Ha, Hb.
+    destruct Ha as [Ha|[Ha|[Ha|[]]]]; destruct Hb as [Hb|[Hb|[Hb|[]]]]; subst a b; cbn; split; intros H; try reflexivity; try discriminate H. }
+  split; [vm_compute; lia|]. split; vm_compute; reflexivity.
+Qed.
+
+
 (* ---- round 4: the json / logfmt stages' own code against definitions by value (proofs/InternalJsonProofs.v) ---- *)
 From Qryn Require proofs.InternalJsonProofs.
 Module JP := InternalJsonProofs.
